@@ -54,6 +54,11 @@ func (exec *execCtx) processV2Last(lastID oid.ID) {
 		r.SetLength(exec.collectedHeader.PayloadSize())
 	}
 
+	// the reverse walk counts payload offsets down from the end of the parent
+	if exec.collectedHeader != nil {
+		exec.curOff = exec.collectedHeader.PayloadSize()
+	}
+
 	if ok := exec.writeCollectedHeader(); ok {
 		exec.overtakePayloadInReverse(lastID)
 	}
